@@ -52,6 +52,7 @@ def run(ctx):
     vlib.mc_check(ctx, "FaultProto", "FaultProto.cfg", timeout=120, workers=4, coverage=True)
     vlib.mc_check(ctx, "FaultProto", "FaultProto_negF5.cfg", expect_violation="OkCommitIsComplete", timeout=120, workers=4)
     vlib.mc_check(ctx, "FaultProto", "FaultProto_negF40.cfg", expect_violation="DiskIsSomeCommit", timeout=120, workers=4)
+    vlib.mc_check(ctx, "StorageProto", "StorageProto_negF45.cfg", expect_violation="NoSpuriousFailure", timeout=120, workers=2)
     # a failed meta.json replacement at the storage level: active metas replaced before the durable write (seeded C11-s9)
     vlib.mc_check(ctx, "StorageProto", "StorageProto_negS11.cfg", expect_violation="NeverDeletesNeeded", timeout=300, workers=4)
 
